@@ -504,9 +504,15 @@ def value_parse_datetime(text):
         year = int(m_date.group('year'))
         month = int(m_date.group('month'))
         day = int(m_date.group('day'))
-        return datetime.datetime(year, month, day)
+        try:
+            return datetime.datetime(year, month, day)
+        except ValueError:
+            return None
     elif _R_DATETIME.match(text):
-        result = datetime.datetime.fromisoformat(_R_DATETIME_ZULU.sub('+00:00', text)).astimezone().replace(tzinfo=None)
+        try:
+            result = datetime.datetime.fromisoformat(_R_DATETIME_ZULU.sub('+00:00', text)).astimezone().replace(tzinfo=None)
+        except (ValueError, OverflowError):
+            return None
         return result.replace(microsecond=(result.microsecond // 1000) * 1000)
 
     return None
